@@ -153,6 +153,35 @@ example : (catFiles (V := Int) ⟨2, 1⟩ ⟨-1, fun x => x != -1⟩
 section api
 open ApiCat WFApi WFFiles
 
+/-! Scope notes (evaluated against the library, in-memory path):
+  * the claims below are about files written from numeric plain maps, record arrays and wide
+    masks — the kinds the C18 generators draw.  For BOOLEAN plain maps the library's output is
+    an `int16` map with sentinel 0 (the stub dtype of the first file is the stored `int16`),
+    while the model's `fileKind` recovers `bool`; for BIT-PACKED maps the library raises
+    ValueError (`could not broadcast input array …`), the model concatenates.  Both lie
+    outside what the harness compares; the model is frozen.
+  * `inF50` below: known finding F50, the one region of the compared kinds where model and
+    library differ. -/
+
+/-- **C18, the general meaning of the loop** (generic cell type; arbitrary, possibly
+    OVERLAPPING inputs; every flag combination) — `ApiCat.catFiles_gen`: the loop fails only
+    under `check ∧ ¬ or`; on success the result obeys the layout, holds at every pixel the
+    left fold of the values of the inputs valid there, in list order, under
+    `stepV acc v = if check ∧ valid acc then orF v acc else v`, and is covered exactly at the
+    output coverage pixels that contain a valid pixel of some input -/
+theorem cat_general {V : Type} [DecidableEq V] (cOut : Cfg) (vc : VCfg V) (inputs : List (CatIn V))
+    (co oo : Bool) (orF : V → V → V)
+    (hin : ∀ i ∈ inputs, Inv i.c vc i.state ∧ i.c.npix = cOut.npix)
+    (hv : vc.valid vc.sentinel = false) :
+    (catFiles cOut vc inputs co oo orF = none ∧ co = true ∧ oo = false) ∨
+    ∃ out, catFiles cOut vc inputs co oo orF = some out ∧ Inv cOut vc out ∧
+      (∀ p, p < cOut.npix →
+        abs cOut vc out p = (inVals vc inputs p).foldl (stepV vc co orF) vc.sentinel) ∧
+      (∀ k, k < cOut.ncov → (covered cOut out k = true ↔
+        ∃ i ∈ inputs, ∃ p, p < cOut.npix ∧ p >>> cOut.shift = k ∧
+          vc.valid (abs i.c vc i.state p) = true)) :=
+  catFiles_gen cOut vc inputs co oo orF hin hv
+
 /-- under pairwise disjointness at most one map is valid at a pixel: the list of valid values
     is the value of the map `find?` finds -/
 theorem vals_of_disjoint {so : Nat} {ins : Ins} (hd : ApiCat.Disjoint so ins) (p : Nat)
